@@ -136,7 +136,58 @@ def lean_strlist(xs):
     return "[" + ", ".join('"%s"' % x for x in xs) + "]"
 
 
-EXTRACTORS = [extract_cost]
+def _phase_in(func):
+    """EXECUTION_PHASE.X used in `with ExecutionContext(EXECUTION_PHASE.X)` inside a function (unique, else None)"""
+    found = set()
+    for n in ast.walk(func):
+        if isinstance(n, ast.Call) and isinstance(n.func, ast.Name) and n.func.id == "ExecutionContext" and n.args:
+            a = n.args[0]
+            if isinstance(a, ast.Attribute) and isinstance(a.value, ast.Name) and a.value.id == "EXECUTION_PHASE":
+                found.add(a.attr)
+    return found.pop() if len(found) == 1 else None
+
+
+def _range_check(func, var):
+    """bounds (lo, hi) from `if var < lo or var > hi ...` / `if var > hi or var < lo or var == 0`"""
+    lo = hi = None
+    tests = [i.test for i in ast.walk(func) if isinstance(i, ast.If) and i.body and isinstance(i.body[0], ast.Raise)]
+    for n in (c for t in tests for c in ast.walk(t)):
+        if isinstance(n, ast.Compare) and isinstance(n.left, ast.Name) and n.left.id == var and len(n.ops) == 1:
+            c = n.comparators[0]
+            try:
+                v = ast.literal_eval(c)
+            except Exception:
+                continue
+            if not isinstance(v, int):
+                continue
+            if isinstance(n.ops[0], ast.Lt):
+                lo = v if lo is None else lo
+            elif isinstance(n.ops[0], ast.Gt):
+                hi = v if hi is None else hi
+    return (lo, hi) if lo is not None and hi is not None else None
+
+
+def extract_scheduler(E):
+    tree, src = parse("rqalpha/mod/rqalpha_mod_sys_scheduler/scheduler.py")
+    cls = find_class(tree, "Scheduler")
+    E.fp["Scheduler"] = fingerprint(cls) if cls is not None else None
+    bt = find_func(cls, "before_trading_") if cls is not None else None
+    nb = find_func(cls, "next_bar_") if cls is not None else None
+    pb = _phase_in(bt) if bt is not None else None
+    pn = _phase_in(nb) if nb is not None else None
+    E.t.append("/-- phase in which `Scheduler.before_trading_` runs the registered functions -/\ndef schedPhaseBeforeTrading : Option String := %s" % ('some "%s"' % pb if pb else "none"))
+    E.t.append("/-- phase in which `Scheduler.next_bar_` runs the registered functions -/\ndef schedPhaseBar : Option String := %s" % ('some "%s"' % pn if pn else "none"))
+    rw = find_func(cls, "run_weekly") if cls is not None else None
+    rm = find_func(cls, "run_monthly") if cls is not None else None
+    wd = _range_check(rw, "weekday") if rw is not None else None
+    wn = _range_check(rw, "tradingday") if rw is not None else None
+    mn = _range_check(rm, "tradingday") if rm is not None else None
+    for name, v, doc in (("schedWeekdayRange", wd, "run_weekly: accepted weekday range"), ("schedWeekNthRange", wn, "run_weekly: accepted tradingday range (0 excluded)"),
+                         ("schedMonthNthRange", mn, "run_monthly: accepted tradingday range (0 excluded)")):
+        E.t.append("/-- %s -/\ndef %s : Option (Int × Int) := %s" % (doc, name, "some (%d, %d)" % v if v else "none"))
+
+
+EXTRACTORS = [extract_cost, extract_scheduler]
 
 
 def write_if_changed(path, text):
